@@ -641,40 +641,93 @@ def r14_1(ctx):
     ctx.need(len(ext) == 1, f"expected one extension lookup (fn -> Option<Format> with a literal table), found {len(ext)}")
     ext_fn = ext[0][0]
     pn, pb, pt, parse_fn = v.parse[0]
-    for n, b, t in v.translate:
-        key = f"{fn_of(t)['name']}@{_variant_key(t)}"
-        tr = strace(sup, n, t["args"][-1])
-        ok = False
-        detail = f"`from` argument originates from {tr.origin[0] if tr.origin else '?'}"
-        if tr.origin and tr.origin[0] == "call":
+    pv = vocab.bin_vocab(ctx.facts)["path"]
+
+    def is_primary(node, op):
+        p = strace_deep(sup, node, op, extra=UNWRAPS, stop_at=(pt,))
+        return bool(p.origin and p.origin[0] == "call" and p.origin[2] is pt and p.has("field")), [s_[1] for s_ in p.steps if s_[0] == "field"]
+
+    def is_ext_lookup(node, op):
+        """The operand is the extension lookup's answer: a call of the lookup function, or (when the fallback is
+        written inside the lookup function itself) the local that receives the lookup table's result."""
+        s2 = strace(sup, node, op)
+        if s2.origin and s2.origin[0] == "call" and ((fn_of(s2.origin[2]) or {}).get("resolved") or (fn_of(s2.origin[2]) or {}).get("def")) == ext_fn.id:
+            return True
+        body = sup.body_of(node)
+        if body.id == ext_fn.id and s2.origin and s2.origin[0] == "multi" and all(s_[0] == "use" for s_ in s2.steps):
+            defs = s2.origin[2]
+            return bool(defs) and all(k_ == "assign" and p_["rv"]["k"] == "aggregate" and p_["rv"].get("adt") == "std::option::Option" for _, _, k_, p_ in defs)
+        return False
+
+    def classify(node, op, depth=0):
+        """(ok, detail) for the value of `from` read by `op` at `node`."""
+        tr = strace_deep(sup, node, op)
+        if tr.origin and tr.origin[0] == "const":
+            return False, "`from` is a constant: -f and the extension are ignored"
+        if tr.origin and tr.origin[0] == "call" and all(s_[0] in ("use", "enter_caller", "enter_callee") for s_ in tr.steps):
             oc = tr.origin[2]
             onode = (tr.origin_node[0], tr.origin[1])
-            ob = sup.body_of(onode)
             f = fn_of(oc) or {}
-            if f.get("def") in OPTION_FALLBACK and all(s[0] in ("use", "enter_caller") for s in tr.steps):
-                p = strace_deep(sup, onode, oc["args"][0], extra=UNWRAPS, stop_at=(pt,))
-                prim_ok = bool(p.origin and p.origin[0] == "call" and p.origin[2] is pt and p.has("field"))
-                pfield = [s[1] for s in p.steps if s[0] == "field"]
-                sec_ok = False
-                if f["def"].endswith("or_else"):
-                    for c in f.get("closures", []):
-                        cb = binc.by_id.get(c)
-                        if cb:
-                            r_ok, _ = _returns_call(cb, lambda tt: ((fn_of(tt) or {}).get("resolved") or (fn_of(tt) or {}).get("def")) == ext_fn.id)
-                            sec_ok = r_ok
-                else:
-                    s2 = strace(sup, onode, oc["args"][1])
-                    sec_ok = bool(s2.origin and s2.origin[0] == "call" and ((fn_of(s2.origin[2]) or {}).get("resolved") or (fn_of(s2.origin[2]) or {}).get("def")) == ext_fn.id)
-                ok = prim_ok and sec_ok
-                detail = f"{f['def'].rsplit('::', 1)[-1]}(primary = parsed field {pfield}, secondary = extension lookup: {sec_ok})"
-                if prim_ok and not sec_ok:
-                    detail = "the fallback operand is not the extension lookup"
-                if not prim_ok:
-                    detail = "the primary operand is not the parsed -f option (precedence swapped or -f ignored)"
+            if f.get("def") not in OPTION_FALLBACK:
+                return False, f"`from` is produced by {f.get('def')} (not a recognised option-fallback idiom: or_else / or)"
+            prim_ok, pfield = is_primary(onode, oc["args"][0])
+            sec_ok = False
+            if f["def"].endswith("or_else"):
+                for c in f.get("closures", []):
+                    cb = binc.by_id.get(c)
+                    if cb:
+                        r_ok, _ = _returns_call(cb, lambda tt: ((fn_of(tt) or {}).get("resolved") or (fn_of(tt) or {}).get("def")) == ext_fn.id)
+                        sec_ok = r_ok
             else:
-                detail = f"`from` is produced by {f.get('def')} (not a recognised option-fallback idiom: or_else / or)"
-        elif tr.origin and tr.origin[0] == "const":
-            detail = "`from` is a constant: -f and the extension are ignored"
+                sec_ok = is_ext_lookup(onode, oc["args"][1])
+            if prim_ok and sec_ok:
+                return True, f"{f['def'].rsplit('::', 1)[-1]}(primary = parsed field {pfield}, secondary = extension lookup)"
+            if prim_ok:
+                return False, "the fallback operand is not the extension lookup"
+            return False, "the primary operand is not the parsed -f option (precedence swapped or -f ignored)"
+        if tr.origin and tr.origin[0] == "multi" and depth < 2:
+            # several definitions (early return for standard input, fallback for files): each must be the fallback
+            # form, or the -f option alone on a path that only standard input takes (it has no extension)
+            onode = tr.origin_node
+            body = sup.body_of(onode)
+            dets = []
+            for dbb, idx, kind, payload in tr.origin[2]:
+                if kind == "assign" and payload["rv"]["k"] == "use":
+                    dnode = (onode[0], dbb)
+                    ok_d, det_d = classify(dnode, payload["rv"]["op"], depth + 1)
+                    if not ok_d:
+                        prim_ok, _ = is_primary(dnode, payload["rv"]["op"])
+                        stdin_only = False
+                        for sb in sorted(body.reach()):
+                            for s_ in body.blocks[sb]["stmts"]:
+                                if s_["k"] == "assign" and s_["rv"]["k"] == "discr" and pv["path"] in s_["rv"]["p"]["ty"]:
+                                    e = enum_edge(body, sb, pv["stdin_idx"])
+                                    if e and body.edge_dominates(e[0], e[1], e[2], dbb):
+                                        stdin_only = True
+                        if not (prim_ok and stdin_only):
+                            return False, det_d
+                        dets.append("-f alone for standard input")
+                    else:
+                        dets.append(det_d)
+                elif kind == "call":
+                    f = fn_of(payload) or {}
+                    if f.get("def") in OPTION_FALLBACK:
+                        dnode = (onode[0], dbb)
+                        prim_ok, pfield = is_primary(dnode, payload["args"][0])
+                        sec_ok = is_ext_lookup(dnode, payload["args"][1]) if not f["def"].endswith("or_else") else any(_returns_call(binc.by_id[c], lambda tt: ((fn_of(tt) or {}).get("resolved") or (fn_of(tt) or {}).get("def")) == ext_fn.id)[0] for c in f.get("closures", []) if c in binc.by_id)
+                        if not (prim_ok and sec_ok):
+                            return False, "the primary operand is not the parsed -f option (precedence swapped or -f ignored)" if not prim_ok else "the fallback operand is not the extension lookup"
+                        dets.append(f"{f['def'].rsplit('::', 1)[-1]}(primary = parsed field {pfield}, secondary = extension lookup)")
+                    else:
+                        return False, f"`from` is produced by {f.get('def')}"
+                else:
+                    return False, "`from` has a definition of unrecognised form"
+            return bool(dets), "; ".join(sorted(set(dets)))
+        return False, f"`from` argument originates from {tr.origin[0] if tr.origin else '?'}"
+
+    for n, b, t in v.translate:
+        key = f"{fn_of(t)['name']}@{_variant_key(t)}"
+        ok, detail = classify(n, t["args"][-1])
         ctx.ob(f"{key}:from-is-f-then-extension", ok, v.site(n), detail)
     # the parsed field that feeds `from` is the accumulator touched in the -f arm only
     okf, det = _from_field_is_dash_f(binc, parse_fn)
@@ -884,6 +937,9 @@ def r14_2(ctx):
         for step in tr.steps:
             if step[0] == "call" and (step[1].startswith("std::option::Option::<T>::map") or step[1].startswith("std::option::Option::<T>::and_then")):
                 cf = fn_of(eb.blocks[step[2]]["term"])
+                # `.map(str::to_ascii_lowercase)`: the lowering function handed over by name
+                if any(a.get("k") == "fn" and ("to_ascii_lowercase" in a.get("def", "") or "to_lowercase" in a.get("def", "")) for a in eb.blocks[step[2]]["term"]["args"]):
+                    lowered = True
                 for c in cf.get("closures", []):
                     cb = binc.by_id.get(c)
                     if cb and any((fn_of(tt) or {}).get("name") in ("to_ascii_lowercase", "to_lowercase") for _, tt in cb.calls()):
@@ -909,7 +965,19 @@ def r14_2(ctx):
                         edges = [("otherwise", t["otherwise"])]
                 for lab, tgt in edges:
                     r = eb.reachable_from(tgt)
-                    none_only = not any(bb in r for bb, _ in cmps) and any(s2["k"] == "assign" and s2["p"]["l"] == 0 and s2["rv"]["k"] == "aggregate" and s2["rv"].get("variant") == "None" for x in r for s2 in eb.blocks[x]["stmts"])
+                    # the answer on that arm: None, or (when the function also applies the -f fallback) the
+                    # Option<Format> it was given, untouched
+                    def plain_answer(s2):
+                        if not (s2["k"] == "assign" and s2["p"]["l"] == 0 and not s2["p"]["pr"]):
+                            return False
+                        if s2["rv"]["k"] == "aggregate" and s2["rv"].get("variant") == "None":
+                            return True
+                        if s2["rv"]["k"] == "use" and is_place(s2["rv"]["op"]):
+                            t0 = trace(eb, s2["rv"]["op"])
+                            return bool(t0.origin and t0.origin[0] == "arg" and t0.origin[1] >= 2 and all(st_[0] == "use" for st_ in t0.steps) and "Option<xt::Format>" in eb.local_ty(t0.origin[1]))
+                        return False
+
+                    none_only = not any(bb in r for bb, _ in cmps) and any(plain_answer(s2) for x in r for s2 in eb.blocks[x]["stmts"])
                     okn = none_only
     ctx.ob("stdin-has-no-extension", okn, site(eb), "the stdin arm yields None without looking at a path")
 
